@@ -1008,6 +1008,20 @@ func (ex *Exec) appendSlice(st *State, fr *Frame, s T, e T, et types.Type, in ss
 	n := SlLen(e)
 	newLen := ex.define(st, "applen", bvBin("bvadd", SlLen(s), n))
 	fits := bvCmp("bvsle", newLen, SlCap(s))
+	if st.appendCase != 0 && in != nil {
+		which := fits
+		if st.appendCase == 2 {
+			which = Not(fits)
+		}
+		top := st.frames[0]
+		ex.oblige(st, funcKey(fr.fn), fmt.Sprintf("append-case@%s", ex.instrOrdinal(fr, in)), frameTags(top.contract), which, ex.pos(in.Pos()), "the alternative chosen by 'cases append-fits' must decide whether the append is in place")
+		if st.appendCase == 1 {
+			fits = True
+		} else {
+			fits = False
+		}
+	}
+	st.appendCase = 0
 	h := st.Heap(hn, hs)
 	// Case split as two paths would double the paths; encode with ite instead.
 	freshRef := ex.newRef(st)
@@ -1029,9 +1043,17 @@ func (ex *Exec) appendSlice(st *State, fr *Frame, s T, e T, et types.Type, in ss
 	// harder for the solvers than the same facts stated separately)
 	emit := func(guard T, val T) {
 		body := Implies(guard, Eq(Select(na, j), val))
+		if body.S == "true" {
+			return
+		}
 		st.cmds = append(st.cmds, fmt.Sprintf("(assert (forall ((%s (_ BitVec 64))) (! %s :pattern ((select %s %s)))))", j.S, body.S, na.S, j.S))
 	}
-	emit(inNew, Select(srcArr, bvBin("bvadd", SlOff(e), bvBin("bvsub", j, base))))
+	srcIdx := bvBin("bvadd", SlOff(e), bvBin("bvsub", j, base))
+	emit(inNew, Select(srcArr, srcIdx))
+	// index lemma (pure bit-vector arithmetic over the slice typing bounds, proved once by lemmas/append_index.smt2;
+	// the solvers need 25 s and more to rediscover it inside a query): the source index stays inside the source
+	st.cmds = append(st.cmds, fmt.Sprintf("(assert (forall ((%s (_ BitVec 64))) (! (=> %s (and (bvsle %s %s) (bvslt %s (bvadd %s %s)))) :pattern ((select %s %s)))))",
+		j.S, inNew.S, SlOff(e).S, srcIdx.S, srcIdx.S, SlOff(e).S, n.S, na.S, j.S))
 	emit(And(Not(inNew), fits), Select(oldArr, j))
 	emit(And(Not(inNew), Not(fits), inOld), Select(oldArr, bvBin("bvadd", SlOff(s), bvBin("bvsub", j, resOff))))
 	emit(And(Not(inNew), Not(fits), Not(inOld)), c.ZeroOfSort(es))
@@ -1253,6 +1275,11 @@ func (ex *Exec) atCallClauses(st *State, fr *Frame, site, short, fnKey, where st
 					choice = 0
 				}
 				st.assume(lev.Bool(alts[choice]))
+				if labelOr(cl, i) == "append-fits" && len(alts) == 2 {
+					// "cases append-fits: <fits> || <does not fit>" at an append: the append below is modelled
+					// without if-then-else on this path, after proving that the chosen alternative decides it
+					st.appendCase = choice + 1
+				}
 				continue
 			}
 			if cl.Kind == "hint" {
